@@ -59,6 +59,7 @@ func (e *kvElection) heartbeatLoop(ctx context.Context) {
 				}
 			}
 
+			verifYield("heartbeat.tick")
 			currentRev := e.revision.Load()
 
 			token := e.Token()
@@ -118,6 +119,7 @@ func (e *kvElection) heartbeatLoop(ctx context.Context) {
 				updateErr = result.err
 			}
 
+			verifYield("heartbeat.result")
 			heartbeatStartTime := time.Now()
 			if updateErr != nil {
 				log := e.getLogger()
